@@ -541,6 +541,9 @@ func Main(chk Check) {
 	}
 	evb, _ := json.MarshalIndent(ev, "", " ")
 	evdir := filepath.Join(home, "evidence")
+	if d := os.Getenv("VERIF_EVIDENCE_DIR"); d != "" {
+		evdir = d // scratch runs against modified checkouts must not touch the committed evidence
+	}
 	os.MkdirAll(evdir, 0o755)
 	if err := os.WriteFile(filepath.Join(evdir, chk.ID+".json"), append(evb, '\n'), 0o644); err != nil {
 		fmt.Fprintln(os.Stderr, err)
@@ -601,6 +604,9 @@ func writeResult(r *Result) {
 
 func writeReplay(home, id string, v Violation) string {
 	dir := filepath.Join(home, "replays", id)
+	if d := os.Getenv("VERIF_REPLAY_DIR"); d != "" {
+		dir = filepath.Join(d, id)
+	}
 	os.MkdirAll(dir, 0o755)
 	body := map[string]interface{}{"property": id, "sig": v.Sig, "part": v.Part, "msg": v.Msg, "case": v.Case}
 	b, _ := json.MarshalIndent(body, "", " ")
